@@ -5,6 +5,7 @@ package main
 import (
 	"fmt"
 	"go/token"
+	"go/types"
 	"regexp"
 	"sort"
 	"strconv"
@@ -16,7 +17,7 @@ import (
 func init() {
 	register("C14",
 		"the effect of arbitrary Fix strings (run-time data; only the built-in literal is checked, AX-HOLIDAY-RUNTIME: strings passed to Fix are well-formed 18-byte records); the exact count of working days passed by the walk.",
-		r14_1, r14_2, r14_3, r14_4, r14_5, r14_6)
+		r14_1, r14_2, r14_3, r14_4, r14_5, r14_6, r14_7)
 }
 
 var recRe = regexp.MustCompile(`^(\d{4})(\d{2})(\d{2})(\d)(\d)(\d{4})(\d{2})(\d{2})$`)
@@ -151,14 +152,15 @@ func r14_1(c *Ctx, r *Report) {
 					}
 					return nil, false
 				}
-				got, ok := evalWith(&evalFrame{fn: fn}, keys[0], leaf)
+				kev := &evaluator{leaf: leaf, inline: inlineLibrary}
+				got, ok := kev.eval(&evalFrame{fn: fn}, keys[0], 0)
 				var args []interface{}
 				for i := 0; i < nargs; i++ {
 					args = append(args, v[i])
 				}
 				want := fmt.Sprintf(t.format, args...)
 				if !ok {
-					bad = append(bad, "the key expression could not be evaluated (undecided = fail)")
+					bad = append(bad, "the key expression could not be evaluated ("+kev.fail+"; undecided = fail)")
 					break
 				}
 				if got != interface{}(want) {
@@ -766,4 +768,117 @@ func r14_5(c *Ctx, r *Report) {
 		sort.Strings(writes)
 		r.check(live && len(other) == 0 && len(writes) == 0, rule, "HolidayUtil."+name+" is a view of the live table", c.fnPos(fn), fmt.Sprintf("reads dataInUse: %v; other package state read: %v; package state written: %v", live, other, writes))
 	}
+}
+
+// R14.7: what Fix queues for insertion.
+func r14_7(c *Ctx, r *Report) {
+	const rule = "R14.7"
+	r.rule(rule, "Fix queues for insertion only what is to be added. Wherever Fix (or a helper of it) concatenates a whole record segment of its argument (dt[:size]) onto a string — the records waiting to be inserted at their sorted position — two things are known to hold there (E13 branch facts: dominating conditions with their polarity, boolean helpers expanded): the day has no record yet (the result of GetHoliday for the segment's day compared equal to nil), and the segment is not a removal (its marker character compared with tag_remove came out unequal). A removal segment for an unrecorded day that is queued ends up in the table as a record whose name character is the marker: every view that decodes it then indexes the name table out of range.")
+	fn := c.Fn(r, rule, "HolidayUtil.Fix")
+	size, okS := c.tables.Var("HolidayUtil", "size")
+	tag, okT := c.tabStr(r, rule, "HolidayUtil", "tag_remove")
+	if fn == nil || okS != nil || size == nil || size.Kind != "int" || !okT {
+		return
+	}
+	stop := map[string]bool{"HolidayUtil.GetHoliday": true}
+	n := 0
+	for _, fr := range helperTree(c, fn, stop) {
+		for _, b := range fr.fn.Blocks {
+			for _, ins := range b.Instrs {
+				bo, ok := ins.(*ssa.BinOp)
+				if !ok || bo.Op != token.ADD || !isStringType(bo.Type()) {
+					continue
+				}
+				isSeg := func(v ssa.Value) bool {
+					_, ov := fr.origin(v)
+					sl, ok := ov.(*ssa.Slice)
+					if !ok || sl.High == nil || !isStringType(sl.X.Type()) {
+						return false
+					}
+					if sl.Low != nil {
+						if k, isK := constInt(sl.Low); !isK || k != 0 {
+							return false
+						}
+					}
+					k, isK := constInt(sl.High)
+					if !isK || k != size.I {
+						return false
+					}
+					// a segment of the argument (what remains of it), not of a string built here
+					seen := map[ssa.Value]bool{}
+					var fromParam func(v ssa.Value) bool
+					fromParam = func(v ssa.Value) bool {
+						if seen[v] {
+							return true
+						}
+						seen[v] = true
+						switch x := v.(type) {
+						case *ssa.Parameter:
+							return true
+						case *ssa.Slice:
+							return fromParam(x.X)
+						case *ssa.Phi:
+							for _, e := range x.Edges {
+								if !fromParam(e) {
+									return false
+								}
+							}
+							return true
+						}
+						return false
+					}
+					return fromParam(sl.X)
+				}
+				if !isSeg(bo.X) && !isSeg(bo.Y) {
+					continue
+				}
+				n++
+				_, facts := factsAt(c, fr.fn, b)
+				if fr.parent != nil {
+					// the facts at the call sites up the helper tree hold as well
+					for p := fr; p.parent != nil; p = p.parent {
+						_, more := factsAt(c, p.parent.fn, p.call.Block())
+						facts = append(facts, more...)
+					}
+				}
+				absent, notRemoval := false, false
+				var seen []string
+				for _, f := range facts {
+					if cb, ok := f.cond.(*ssa.BinOp); ok && (cb.Op == token.EQL || cb.Op == token.NEQ) {
+						for _, pair := range [][2]ssa.Value{{cb.X, cb.Y}, {cb.Y, cb.X}} {
+							k, isK := pair[0].(*ssa.Const)
+							if !isK || k.Value != nil || !isPointerType(k.Type()) {
+								continue
+							}
+							_, ov := f.fr.origin(pair[1])
+							if call, isCall := ov.(*ssa.Call); isCall && call.Common().StaticCallee() != nil && fname(call.Common().StaticCallee()) == "HolidayUtil.GetHoliday" {
+								if (cb.Op == token.EQL) == f.truth {
+									absent = true
+								}
+								seen = append(seen, fmt.Sprintf("GetHoliday(day) %s nil is %v", cb.Op, f.truth))
+							}
+						}
+					}
+					if x, y, op, ok := stringCompareAtom(f.cond); ok && (op == token.EQL || op == token.NEQ) {
+						for _, pair := range [][2]ssa.Value{{x, y}, {y, x}} {
+							if s, isK := constString(pair[0]); isK && s == tag {
+								if (op == token.EQL) != f.truth {
+									notRemoval = true
+								}
+								seen = append(seen, fmt.Sprintf("marker %s tag_remove is %v", op, f.truth))
+							}
+						}
+					}
+				}
+				r.check(absent && notRemoval, rule, fmt.Sprintf("%s queues a segment only for an unrecorded day that is not being removed", fname(fr.fn)), c.pos(bo.Pos()), fmt.Sprintf("known at the concatenation: %v", seen))
+			}
+		}
+	}
+	r.floor(rule, 1)
+	_ = n
+}
+
+func isPointerType(t types.Type) bool {
+	_, ok := t.Underlying().(*types.Pointer)
+	return ok
 }
